@@ -1069,8 +1069,58 @@ TARGETS_QUICK = {
 }
 
 
+def import_probe(res):
+    """The start-up path `PeerManager._import_peers` (what `discover_peers` runs first) on a real
+    manager with PEER_DISCOVERY=on and the coin's hard-coded PEERS: afterwards `myselves` must still be
+    exactly the server's own identities (they are advertised unconditionally: no bad / public / bucket
+    filter applies to them), and with every imported peer recently good in ONE /16 and one of them marked
+    bad, the real on_peers_subscribe must honour the bad filter and the two-per-bucket bound."""
+    import asyncio
+    import time as _time
+    pm = peers_env.make_peer_manager({'PEER_DISCOVERY': 'on', 'COIN': 'BitcoinSV', 'NET': 'mainnet'})
+    own_before = [(p.host, id(p)) for p in pm.myselves]
+    loop = asyncio.new_event_loop()
+    try:
+        loop.run_until_complete(pm._import_peers())
+    finally:
+        loop.close()
+    res.bump('import_probe_hardcoded_peers', len(pm.env.coin.PEERS))
+    res.evaluations += 1
+    own_after = [(p.host, id(p)) for p in pm.myselves]
+    if own_after != own_before:
+        res.violations.append({
+            'suite': SUITE, 'clause': 'own identities',
+            'detail': f'after _import_peers the manager treats {sorted(h for h, _ in own_after)} as its own identities '
+                      f'(advertised without any filter); its own are {sorted(h for h, _ in own_before)}',
+            'case': {'kind': 'import'}})
+        return
+    hard = [p for p in pm.peers if p not in pm.myselves]
+    if len(hard) < 3:
+        res.harness_errors.append('import probe: fewer than 3 hard-coded peers were imported')
+        return
+    now = _time.time()
+    for i, p in enumerate(sorted(hard, key=lambda q: q.host)):
+        p.ip_addr = f'93.184.{i}.7'
+        p.last_good = now - 10
+        p.bad = (i == 0)
+    bad_host = sorted(hard, key=lambda q: q.host)[0].host
+    for is_tor in (False, True):
+        for _ in range(10):
+            out = pm.on_peers_subscribe(is_tor)
+            hosts = [t[1] for t in out]
+            others = [h for h in hosts if h not in {x for x, _ in own_before}]
+            if bad_host in hosts or len([h for h in others if not h.endswith('.onion')]) > 2:
+                res.violations.append({
+                    'suite': SUITE, 'clause': 'bucket' if bad_host not in hosts else 'sound',
+                    'detail': f'after the real start-up import, on_peers_subscribe(is_tor={is_tor}) advertised {others} '
+                              f'(all in 93.184.0.0/16; {bad_host} is marked bad)',
+                    'case': {'kind': 'import'}})
+                return
+
+
 def run(tier, seed):
     res = SuiteResult(SUITE)
+    import_probe(res)
     res.rule = ('cases = (a) populations of real Peer objects (good/stale/never/bad, private/public '
                 'v4/v6 literals, hostnames, onion, shared /16 and /56 buckets, own identities inside/'
                 'outside the set) x requester kind x shuffle outcome through the real '
@@ -1113,6 +1163,10 @@ def run(tier, seed):
 
 def replay(case):
     c = case['case']
+    if c['kind'] == 'import':
+        r = SuiteResult(SUITE)
+        import_probe(r)
+        return [f"{v['clause']}: {v['detail']}" for v in r.violations]
     if c['kind'] == 'sub':
         return [f'{a}: {b}' for a, b in SubRun(c).direct()]
     return [f'{a}: {b}' for a, b in direct_feat(c)]
